@@ -57,6 +57,10 @@ try:
         old = json.load(open(os.path.join(dst, "meta.json")))
     if "suite" not in meta and "suite" in old:
         meta["suite"] = old["suite"]
+    for k in ("breaks", "title", "needs"):
+        if k in old:
+            meta[k] = old[k]
+    meta.setdefault("breaks", pid)
     meta["history"] = old.get("history", []) + [{"head": meta["repo_head"], "ran": meta["ran"]}]
     json.dump(meta, open(os.path.join(dst, "meta.json"), "w"), indent=1)
     print(json.dumps({k: meta[k] for k in ("property", "variant", "demo_clean_rc", "demo_patched_rc", "patch_applies", "suite", "caught_by") if k in meta}))
